@@ -525,7 +525,9 @@ func (c *ConditionCalledByContract) Type() WitnessConditionType {
 // Match implements the WitnessCondition interface checking whether this condition
 // matches given context.
 func (c *ConditionCalledByContract) Match(ctx MatchContext) (bool, error) {
-	return util.Uint160(*c).Equals(ctx.GetCallingScriptHash()), nil
+	calling := ctx.GetCallingScriptHash()
+	// Zero calling hash means there is no calling contract (entry script), it matches nothing.
+	return !calling.Equals(util.Uint160{}) && util.Uint160(*c).Equals(calling), nil
 }
 
 // EncodeBinary implements the WitnessCondition interface allowing to serialize condition.
